@@ -48,7 +48,7 @@ RULE = ("each run is either (a) a branch-isolation scenario: 1-4 branches of 1-3
         "0-12 operations fill(v) / compute-or-request / scribble(result i) / scribble(filled j), "
         "values bare, with an empty or with a nested context; non-trivial = two or more branches "
         "with a non-empty flow, or at least one scribble after a compute; distinct = distinct "
-        "abstracted event-kind sequences"
+        "abstracted event-kind sequences."
         " Since the seeded rounds also: branches that are nested Splits / Zips of two copies of"
         " their chain, contexts of class lena.context.Context, one Variable and one UpdateContext"
         " instance shared by all branches, flows of bare user objects (hashable, mutable) and"
